@@ -159,6 +159,12 @@ class Scenario:
             tkeys.add((k, c))
             ent = {"new": blist(a), "hasold": old is not None, "old": blist(old) if old is not None else []}
             ent.update(self._read(r, k, c))
+            # accessor level (meaningful for raw-encoded chunks: stored bytes = array bytes)
+            try:
+                ab = self.accessor(self.base).fetch_chunk(k, c)
+                ent.update(ast="ok", adata=list(ab))
+            except Exception as e:
+                ent.update(ast="exc", adata=[], acls=type(e).__name__)
             out_t.append(ent)
         for (k, c), a in self.expected.items():
             if (k, c) in tkeys:
@@ -220,7 +226,9 @@ def run_once(workdir, scen, plan):
         case = {"mode": plan["mode"] if plan else "none", "fired": bool(ip.fired) if plan else False,
                 "optype": optype, "outcome": {k: outcome[k] for k in ("st", "osErr", "dataAccess")},
                 "ret": {"has": ret is not None, "data": ret or []}, "expRet": exp_ret or [],
-                "targets": [{k: t[k] for k in ("st", "data", "new", "hasold", "old")} for t in targets],
+                "targets": [{k: t[k] for k in ("st", "data", "new", "hasold", "old", "ast", "adata")} for t in targets],
+                "gzlayer": bool(scen.kind == "file" and scen.gzip and scen.encoding == "raw"),
+                "failkind": (ip.calls[plan["k"]][0] if plan and plan["k"] < len(ip.calls) else ""),
                 "others": [{k: o[k] for k in ("st", "data", "exp")} for o in others]}
         meta = {"scenario": scen.name, "plan": plan, "calls": ip.calls, "exc": outcome["cls"], "retry_close": retry,
                 "target_read": [t["cls"] or t["st"] for t in targets]}
